@@ -43,6 +43,8 @@ Inductive case :=
     (* readRange(min(fc, Len), min(lc, Len), prs) as called by InjectDiagnostics *)
 | CLines (id : N) (prs : list triple) (obs : Z * Z)           (* PositionRanges.Lines *)
 | CRule (id : N) (parts : list (Z * option Z)) (obs : Z * Z)  (* parseRule's line range *)
+| CCaretL (id : N) (line : string) (L : Z) (prs : list triple) (obs : string)
+    (* the caret marks InjectDiagnostics printed under the source line [line] (any bytes) for the ranges prs *)
 | CCaret (id : N) (len : nat) (L : Z) (prs : list triple) (obs : string)
     (* the caret marks InjectDiagnostics printed under an ASCII line of len bytes for the ranges prs *)
 | CMap (id : N) (key : list triple) (items : list (list triple * list triple)) (obs : Z * Z). (* YamlMap.Lines *)
@@ -72,6 +74,8 @@ Definition check (c : case) : list (N * string) :=
       if pair_eqb (lines_of (map tr prs)) obs then [] else [(id, "lines"%string)]
   | CRule id parts obs =>
       if pair_eqb (rule_lines parts) obs then [] else [(id, "rule_lines"%string)]
+  | CCaretL id line L prs obs =>
+      if String.eqb (caret_marks_line line L (map tr prs)) obs then [] else [(id, "caret_marks_line"%string)]
   | CCaret id len L prs obs =>
       if String.eqb (caret_marks len L (map tr prs)) obs then [] else [(id, "caret_marks"%string)]
   | CMap id key items obs =>
